@@ -87,10 +87,42 @@ def run(read, write, degraded):
         flags = body = None
     if flags is None or body is None: degraded.append("announce-ctor")
     if not base_ok: degraded.append("announce-base-header")
+    # --- receiving side: AnnounceMessage::time_properties
+    tp = None
+    try:
+        asrc = strip_comments(read("statime/src/datastructures/messages/announce.rs")).split("#[cfg(test)]")[0]
+        t = re.sub(r"\s+", "", fn_body(asrc, "time_properties"))
+        LEAP = {"NoLeap": ".none", "Leap59": ".leap59", "Leap61": ".leap61"}
+        m = re.fullmatch(
+            r"letleap_indicator=((?:(?:else)?ifself\.header\.\w+\{LeapIndicator::\w+\})+)else\{LeapIndicator::(\w+)\};"
+            r"letcurrent_utc_offset=self\.header\.(\w+)\.then_some\(self\.(\w+)\);"
+            r"TimePropertiesDS\{(.*)\}", t)
+        if m:
+            chain = re.findall(r"ifself\.header\.(\w+)\{LeapIndicator::(\w+)\}", m.group(1))
+            fields = dict(assigns(m.group(5)))
+            want = {"current_utc_offset": "current_utc_offset", "leap_indicator": "leap_indicator"}
+            ok = all(f in FLAGF for f, _ in chain) and all(l in LEAP for _, l in chain) and m.group(2) in LEAP \
+                and m.group(3) in FLAGF and set(fields) == {"current_utc_offset", "leap_indicator", "time_traceable",
+                                                           "frequency_traceable", "ptp_timescale", "time_source"} \
+                and all(fields[k] == v for k, v in want.items())
+            hf = {}
+            for k in ("time_traceable", "frequency_traceable", "ptp_timescale"):
+                mm = re.fullmatch(r"self\.header\.(\w+)", fields.get(k, ""))
+                if not mm or mm.group(1) not in FLAGF: ok = False
+                else: hf[k] = FLAGF[mm.group(1)]
+            if ok:
+                tp = ("{ leapChain := [" + ", ".join(f"(.{FLAGF[f]}, {LEAP[l]})" for f, l in chain) + "], leapElse := " + LEAP[m.group(2)] +
+                      f", utcGuard := .{FLAGF[m.group(3)]}, utcFromBody := " + ("true" if m.group(4) == "current_utc_offset" else "false") +
+                      f", timeTraceable := .{hf['time_traceable']}, freqTraceable := .{hf['frequency_traceable']}, ptpTimescale := .{hf['ptp_timescale']}"
+                      ", timeSourceFromBody := " + ("true" if fields["time_source"] == "self.time_source" else "false") + " }")
+    except Exception:
+        tp = None
+    if tp is None: degraded.append("announce-time-properties")
     L = ["/- GENERATED by translator/extract_announce.py from /repo — do not edit -/",
          "import StatimeModel.Lemmas.AnnounceGen", "namespace Statime.Generated", "open Statime Statime.AnnGen", "",
          "def announceFlagTable : Option (List (FlagF × FlagSrc)) := " + ("none" if flags is None else "some [" + ", ".join(flags) + "]"),
          "def announceBodyTable : Option (List (BodyF × BodySrc)) := " + ("none" if body is None else "some [" + ", ".join(body) + "]"),
          "def announceBaseHeaderAsModelled : Option Bool := " + ("some true" if base_ok else "none"),
+         "def timePropertiesTable : Option TpTable := " + ("none" if tp is None else "some " + tp),
          "", "end Statime.Generated", ""]
     write("AnnounceCtor.lean", "\n".join(L))
